@@ -135,7 +135,7 @@ def plans_for(s, ctx, sym, quick, n_tlc, n_rand):
     P.append({"k": "out1"} if small or not quick else {"k": "lists", "ins": [], "outs": [0, 1, 1, 0], "orep": 0})
     for pl in rng.sample(sym, n_tlc):
         c = concretise(pl, bounds, n, rng)
-        c["rec"] = True
+        c["rec"] = not (s["entry"].endswith("_mt") and s["args"].get("timeout"))
         P.append(c)
     for _ in range(n_rand):
         ins = []
@@ -148,7 +148,8 @@ def plans_for(s, ctx, sym, quick, n_tlc, n_rand):
     # starvation in the middle (nothing new, no space), then continue: LZMA_BUF_ERROR is not fatal
     for _ in range(1 if quick else 3):
         at = (rng.choice(bounds) + rng.choice((-1, 0, 1))) if bounds and rng.random() < 0.7 else rng.randint(0, n)
-        P.append({"k": "starve", "at": max(0, min(n, at)), "n": 10 if mt else 6, "rec": True})
+        slow = mt and s["args"].get("timeout")
+        P.append({"k": "starve", "at": max(0, min(n, at)), "n": 60 if slow else 10 if mt else 6, "rec": not slow})
     return P
 
 
